@@ -981,11 +981,11 @@ fn emit_skip(out: &mut Out, elems: &[u64], what: &str) {
 
 fn run_c19(rng: &mut Rng, out: &mut Out, thorough: bool) {
     let lens: Vec<usize> = if thorough {
-        vec![0, 1, 2, 63, 64, 65, 200, 511, 512, 513, 1024, 2000, 4095, 4096, 4097, 8192, 10000, 20000]
+        vec![0, 1, 2, 63, 64, 65, 200, 511, 512, 513, 1024, 2000, 4095, 4096, 4097, 8192, 12000]
     } else {
         vec![0, 1, 64, 65, 512, 513, 2000, 4097, 9000]
     };
-    let reps = if thorough { 4 } else { 1 };
+    let reps = if thorough { 2 } else { 1 };
     for len in lens.iter() {
         for _ in 0..reps {
             let bits = bits_for(rng, *len);
@@ -995,7 +995,7 @@ fn run_c19(rng: &mut Rng, out: &mut Out, thorough: bool) {
             }
         }
     }
-    for _ in 0..(if thorough { 600 } else { 100 }) {
+    for _ in 0..(if thorough { 400 } else { 100 }) {
         let len = small_len(rng, 6000);
         let bits = bits_for(rng, len);
         let subset = rng.below(8);
